@@ -139,6 +139,12 @@ func checkAssigns(eng *Engine, fa *frameAnalysis, fn *ssa.Function, con *Contrac
 		if b := baseIdent(a.E); b != "" {
 			allowed[b] = true
 		}
+		if gc, ok := a.E.(ECall); ok && gc.Fun == "deep" && len(gc.Args) == 1 {
+			if b := baseIdent(gc.Args[0]); b != "" {
+				allowed[b] = true
+			}
+			continue
+		}
 		if gc, ok := a.E.(ECall); ok && len(gc.Args) > 0 {
 			// ghost state is not program memory
 			continue
